@@ -44,7 +44,9 @@ CONSTANTS
   AdvClient,    \* number of arbitrary envelopes an adversarial peer may send to the server (C12)
   AdvServer,    \* number of arbitrary envelopes an adversarial peer may send to the client (C13);
                 \* when > 0 there is no real server
-  AdvIds        \* the stream ids the adversarial peer uses
+  AdvIds,       \* the stream ids the adversarial peer uses
+  Cap           \* transport capacity per direction: a Write blocks while Cap envelopes are unread (0 = no back-pressure;
+                \* goat's own channel transport is a rendezvous, its HTTP transport one POST at a time)
 
 Calls == Unaries \cup Streams
 Workers == 1..NWorkers
@@ -99,6 +101,7 @@ CallOf(id) == CHOOSE c \in Calls : idOf[c] = id
 IsStreamId(id) == \E c \in Streams : idOf[c] = id
 Env(id, k) == [id |-> id, k |-> k]
 Free == ""
+Room(wire) == Cap = 0 \/ Len(wire) < Cap
 
 -----------------------------------------------------------------------------
 Init ==
@@ -155,7 +158,7 @@ URegister(c) ==
                  hpc, hrecv, hsentN, hres, hsawEOF, waitFor, sReadFailed, stopped, serveRet, advN>>
 
 UWrite(c) ==
-  /\ upc[c] = "write"
+  /\ upc[c] = "write" /\ Room(c2s)
   /\ c2s' = Append(c2s, Env(idOf[c], "req"))
   /\ upc' = [upc EXCEPT ![c] = "await"]
   /\ UNCHANGED <<s2c, nextId, idOf, muxLock, reg, respCh, respDone, rErr, mpc, mcur, cReadFailed, ures,
@@ -263,7 +266,7 @@ SRegister(c) ==
 
 \* the open envelope is written and the stream's read loop starts
 SOpen(c) ==
-  /\ spc[c] = "open"
+  /\ spc[c] = "open" /\ Room(c2s)
   /\ c2s' = Append(c2s, Env(idOf[c], "open"))
   /\ spc' = [spc EXCEPT ![c] = "run"] /\ rpc' = [rpc EXCEPT ![c] = "read"]
   /\ UNCHANGED <<s2c, nextId, idOf, muxLock, reg, respCh, respDone, rErr, mpc, mcur, cReadFailed, upc, ures,
@@ -302,13 +305,16 @@ SOpCheck(c) ==
                  gotTrailer, srpc, srcur, srvLock, sreg, sch, hctx, hdoneSig, connCtx, wpc, wcur, wrpc, wrcur,
                  hpc, hrecv, hsentN, hres, hsawEOF, waitFor, sReadFailed, stopped, serveRet, advN>>
 
-\* rw.Write(cs.ctx, body): fails when the stream context is done (then teardown(false): cancel)
+\* rw.Write(cs.ctx, body): blocks while the transport has no room and fails when the stream context is done - then
+\* SendMsg calls cs.teardown(false) like after a refused write: cancel and unregister, in two steps
 SSendWrite(c) ==
   /\ spc[c] = "sendw"
   /\ IF sctx[c]
        THEN /\ nsent' = [nsent EXCEPT ![c] = MaxC] /\ UNCHANGED c2s
-       ELSE /\ c2s' = Append(c2s, Env(idOf[c], "body")) /\ nsent' = [nsent EXCEPT ![c] = @ + 1]
-  /\ spc' = [spc EXCEPT ![c] = "run"]
+            /\ spc' = [spc EXCEPT ![c] = "td1"]
+       ELSE /\ Room(c2s)
+            /\ c2s' = Append(c2s, Env(idOf[c], "body")) /\ nsent' = [nsent EXCEPT ![c] = @ + 1]
+            /\ spc' = [spc EXCEPT ![c] = "run"]
   /\ UNCHANGED <<s2c, nextId, idOf, muxLock, reg, respCh, respDone, rErr, mpc, mcur, cReadFailed, upc, ures,
                  sop, closed, cancelled, sres, rpc, rcur, sctx, rdone, rterm, rChClosed, prot,
                  gotTrailer, srpc, srcur, srvLock, sreg, sch, hctx, hdoneSig, connCtx, wpc, wcur, wrpc, wrcur,
@@ -352,7 +358,7 @@ STeardown2(c) ==
                  hsawEOF, waitFor, sReadFailed, stopped, serveRet, advN>>
 
 SCloseWrite(c) ==
-  /\ spc[c] = "closew"
+  /\ spc[c] = "closew" /\ (sctx[c] \/ Room(c2s))
   /\ c2s' = IF sctx[c] THEN c2s ELSE Append(c2s, Env(idOf[c], "close"))
   /\ closed' = [closed EXCEPT ![c] = TRUE]
   /\ spc' = [spc EXCEPT ![c] = "run"]
@@ -395,8 +401,10 @@ RlRead(c) ==
      \/ /\ respCh[id] # <<>>
         /\ rcur' = [rcur EXCEPT ![c] = Head(respCh[id])] /\ respCh' = [respCh EXCEPT ![id] = Tail(@)]
         /\ rpc' = [rpc EXCEPT ![c] = "classify"] /\ UNCHANGED rterm
+     \* D24: the registration is gone AND the context is done - the context's error is what the caller is told
      \/ /\ id \in respDone /\ UNCHANGED <<rcur, respCh, advN>>
-        /\ rterm' = [rterm EXCEPT ![c] = "err"] /\ rpc' = [rpc EXCEPT ![c] = "xlock"]
+        /\ rterm' = [rterm EXCEPT ![c] = IF Fixed("D24") /\ sctx[c] /\ ~rErr THEN "canceled" ELSE "err"]
+        /\ rpc' = [rpc EXCEPT ![c] = "xlock"]
      \/ /\ sctx[c] /\ UNCHANGED <<rcur, respCh, advN>>
         /\ rterm' = [rterm EXCEPT ![c] = "canceled"] /\ rpc' = [rpc EXCEPT ![c] = "xlock"]
   /\ UNCHANGED <<c2s, s2c, nextId, idOf, muxLock, reg, respDone, rErr, mpc, mcur, cReadFailed, upc, ures,
@@ -445,6 +453,9 @@ RlExitLock(c) ==
 
 RlExitRst(c) ==
   /\ rpc[c] = "xrst"
+  \* (the reset is written with a deadline of 30 s of its own; the model lets it wait for room instead: a transport
+  \* that stays full for that long shows up as a deadlock here)
+  /\ (~gotTrailer[c] /\ sctx[c]) => Room(c2s)
   /\ c2s' = IF ~gotTrailer[c] /\ sctx[c] THEN Append(c2s, Env(idOf[c], "rst")) ELSE c2s
   /\ rpc' = [rpc EXCEPT ![c] = "xunreg"]
   /\ UNCHANGED <<s2c, nextId, idOf, muxLock, reg, respCh, respDone, rErr, mpc, mcur, cReadFailed, upc, ures,
@@ -606,9 +617,11 @@ WkExit(w) ==
                  gotTrailer, srpc, srcur, srvLock, sreg, sch, hctx, hdoneSig, connCtx, wcur, wrpc, wrcur,
                  hpc, hrecv, hsentN, hres, hsawEOF, waitFor, sReadFailed, stopped, serveRet, advN>>
 
+\* rw.Write(h.ctx, rpc): blocks while the transport has no room; gives up (and ends) with the connection context
 WrWrite ==
   /\ wrpc = "write"
-  /\ s2c' = Append(s2c, wrcur) /\ wrpc' = "take"
+  /\ \/ Room(s2c) /\ s2c' = Append(s2c, wrcur) /\ wrpc' = "take"
+     \/ ~Room(s2c) /\ connCtx /\ UNCHANGED s2c /\ wrpc' = "end"
   /\ UNCHANGED <<c2s, nextId, idOf, muxLock, reg, respCh, respDone, rErr, mpc, mcur, cReadFailed, upc, ures,
                  spc, sop, nsent, closed, cancelled, sres, rpc, rcur, sctx, rdone, rterm, rChClosed, prot,
                  gotTrailer, srpc, srcur, srvLock, sreg, sch, hctx, hdoneSig, connCtx, wpc, wcur, wrcur,
@@ -813,6 +826,11 @@ EofOnlyOnOk == AdvServer = 0 => \A c \in Streams : \A i \in DOMAIN sres[c] :
 SendRefused(c) == nsent[c] = MaxC + 1
 NoCancelAfterSuccess == \A c \in Streams : \A i \in DOMAIN sres[c] :
                   sres[c][i] = "canceled" => cancelled[c] \/ SendRefused(c)
+
+\* C07: a stream ended by nothing but its caller's cancellation reports Canceled - whatever else its teardown made
+\* true at the same time (D24)
+CancelReportsCanceled == \A c \in Streams :
+  (rdone[c] /\ cancelled[c] /\ ~gotTrailer[c] /\ ~rErr /\ ~SendRefused(c)) => rterm[c] = "canceled"
 
 \* C06: the server's reset for a late message never precedes that stream's trailer on the wire
 ResetNotBeforeTrailer == (AdvServer = 0 /\ AdvClient = 0) =>
